@@ -66,3 +66,17 @@ theorem C17_source_chunker_is_the_models (ls : List Nat) (chunks : Nat) : splitG
   gen_chunker ls chunks
 
 end CH
+
+namespace ST
+
+/-- **The code's own accumulation in `stats_for_bed_item`** (regenerated from the source): a clipped value of `n` bases and
+    value `v` adds `n` covered bases and `n·v` to the sum and moves the running extrema by `min` / `max`; the extrema start
+    from the largest / smallest finite `f64`. -/
+theorem C17_source_region_statistics_accumulation (n v a b : Int) :
+    Gen.st_bases_add n v a b = n ∧ Gen.st_sum_add n v a b = n * v ∧ Gen.st_min n v a b = min a v ∧ Gen.st_max n v a b = max b v ∧
+    Gen.st_min_init = .posMax ∧ Gen.st_max_init = .negMax :=
+  ⟨(gen_region_stats_atoms n v a b).1, (gen_region_stats_atoms n v a b).2.1, (gen_region_stats_atoms n v a b).2.2.1,
+   (gen_region_stats_atoms n v a b).2.2.2, SF.gen_extrema_start.2.2.2.2.1, SF.gen_extrema_start.2.2.2.2.2⟩
+
+end ST
+
